@@ -1,7 +1,8 @@
-import patchmode
+import patchmode, rootmode
 
 
 def main(tier, seed, replay):
     return patchmode.run("C11", tier, seed, replay,
                          base=dict(mode="c11", prop="Props.C11",
-                                   corr="corr:validity (model encoder/decoder outcome on invalid values and documents vs the generated bindings)"))
+                                   corr="corr:validity (model encoder/decoder outcome on invalid values and documents vs the generated bindings)"),
+                         post=rootmode.post("c11"))
